@@ -3,9 +3,14 @@ C08 — NV transpilation preserves program behaviour, not only gates.
 Property theorems only; helper lemmas live in Lemmas/Transpile*.lean.
 -/
 import NetqasmVerif.Lemmas.TranspileSim
+import NetqasmVerif.Lemmas.TranspileExpandSound
+import NetqasmVerif.Lemmas.TranspileScratch
 import NetqasmVerif.Gen.NvExpand
 namespace NQ.C08
 open NQ NQ.Tr
+
+def qreg (i : Int) : Operand := .reg ⟨2, i⟩
+def rreg (i : Int) : Operand := .reg ⟨0, i⟩
 
 /-! ## Facts about the generated tables (re-decided by the kernel whenever /repo changes them) -/
 
@@ -153,33 +158,88 @@ Parameters: `M` an abstract instruction semantics with `SemLocal` (C04's obligat
 memory (quantum state included, up to global phase) as the gate and changes no register except
 the one `get_unused_register` returns. -/
 
-/-- **scratch_ok**: on a `QStatic` program the register borrowed for the electron at a gate at
-position `p` (whatever `get_unused_register` returns there) is not inside any window at `p + 1`,
-i.e. no execution reads it before a later `set` re-defines it — it is not live. -/
-theorem scratch_ok (cfg : Cfg) (S : List Instr) (p : Nat) (x : Instr) (hx : S[p]? = some x)
-    (s0 : Reg) (hs : getUnused ((S.take (p + 1)).flatMap topRegs) = .ok s0) :
-    K cfg S (p + 1) s0 = none ∧ K cfg S p s0 = none ∧ s0 ∉ topRegs x ∧ s0.bank = bankQ := by
-  have hf := getUnused_fresh hs
-  refine ⟨?_, ?_, ?_, hf.2⟩
-  · cases hk : K cfg S (p + 1) s0 with
+/-- table facts for `scratch_ok`: templates contain `set` only in the carbon–carbon rows and only
+as `set s <literal>` (both debug and hardware settings) -/
+theorem sets_only_scratch_gen : ∀ d h : Bool, SetsOnlyScratch (Gen.cfg d h) = true := by decide +kernel
+
+/-- **scratch_ok** — about the pass's OUTPUT: in the chunk emitted for a gate at position `p`, every
+register written (every `set r v` of the expansion; expansions contain no other register write) is
+the register `get_unused_register` returns for the registers named up to and including `p`; hence it
+is a Q register named by no instruction at or before `p`, and it lies in no window at `p` or `p + 1`
+(no execution reads it before a later `set` re-defines it): it is not live.
+(A pass that cached the register of an earlier gate — seeded change C08_0 — violates the first
+conjunct: its second carbon–carbon gate writes a register the program started using in between.) -/
+theorem scratch_ok (cfg : Cfg) (hS : SetsOnlyScratch cfg = true) (S out : List Instr)
+    (h : transpile cfg S = .ok out) :
+    ∃ cs, Chunks cfg [] [] S cs ∧
+      ∀ p x c, S[p]? = some x → isGate cfg x = true → cs[p]? = some c →
+        ∀ y ∈ c, ∀ r v, setOf cfg y = some (r, v) →
+          getUnused ((S.take (p + 1)).flatMap topRegs) = .ok r ∧
+          r ∉ (S.take (p + 1)).flatMap topRegs ∧ r.bank = bankQ ∧
+          K cfg S p r = none ∧ K cfg S (p + 1) r = none := by
+  obtain ⟨cs, hc, _, _, _⟩ := transpile_structure h
+  refine ⟨cs, hc, ?_⟩
+  intro p x c hx hg hcp y hy r v hset
+  obtain ⟨hp, hxe⟩ := List.getElem?_eq_some_iff.1 hx
+  obtain ⟨info, hi, hp', hex⟩ := hc.at p hp
+  rw [hxe] at hi hex
+  have hce : cs[p] = c := by
+    rw [List.getElem?_eq_getElem hp'] at hcp; simpa using hcp
+  rw [hce] at hex
+  have hgi : infoGate info = true := by rw [← isGate_eq hi]; exact hg
+  have hgu := expandInstr_sets hS hi hgi hex hy hset
+  simp only [List.nil_append] at hgu
+  have hf := getUnused_fresh hgu
+  refine ⟨hgu, hf.1, hf.2, ?_, ?_⟩
+  · cases hk : K cfg S p r with
     | none => rfl
-    | some v => exact absurd (K_mem_used hk) hf.1
-  · cases hk : K cfg S p s0 with
-    | none => rfl
-    | some v =>
+    | some v' =>
       have := K_mem_used hk
       refine absurd ?_ hf.1
       rw [take_succ_of_get hx]; simp only [List.flatMap_append, List.mem_append]; exact Or.inl this
-  · intro hm
-    apply hf.1
-    rw [take_succ_of_get hx]; simp only [List.flatMap_append, List.mem_append]
-    exact Or.inr (by simpa using hm)
+  · cases hk : K cfg S (p + 1) r with
+    | none => rfl
+    | some v' => exact absurd (K_mem_used hk) hf.1
+
+/-- the program of seeded change C08_0 (`cnot` on carbons 1, 2; then `Q2` starts being used for
+qubit 3; a second carbon–carbon gate; `x Q2` without re-setting): the pass as it is borrows `Q2` for
+the first gate and `Q3` for the second, so `Q2` still names qubit 3 at the end -/
+def seededScratch : List Instr := [
+  ⟨"core.SetInstruction", [qreg 0, .imm 1]⟩,
+  ⟨"core.SetInstruction", [qreg 1, .imm 2]⟩,
+  ⟨"vanilla.CnotInstruction", [qreg 0, qreg 1]⟩,
+  ⟨"core.SetInstruction", [qreg 2, .imm 3]⟩,
+  ⟨"vanilla.GateHInstruction", [qreg 2]⟩,
+  ⟨"vanilla.CphaseInstruction", [qreg 1, qreg 0]⟩,
+  ⟨"vanilla.GateXInstruction", [qreg 2]⟩]
+
+theorem seeded_scratch_registers :
+    QStatic (Gen.cfg false false) seededScratch = true ∧
+    (transpile (Gen.cfg false false) seededScratch).toOption.map (fun o =>
+      o.filterMap (fun i => match setOf (Gen.cfg false false) i with
+        | some (r, v) => if r.bank == bankQ then some (r.idx, v) else none
+        | none => none)) = some [(0, 1), (1, 2), (2, 0), (2, 3), (3, 0)] := by
+  decide +kernel
+
+/-- why `scratch_ok` excludes the seeded change: the register borrowed at the first gate (`Q2`,
+position 2) is, at the second carbon–carbon gate (position 5), named by the program and inside a
+window (`K … 6 Q2 = some 3`: it is live, holding qubit 3); `get_unused_register` there returns `Q3`.
+A model that re-used the cached `Q2` would write a register for which the conjuncts
+`r ∉ …flatMap topRegs` and `K cfg S (p + 1) r = none` of `scratch_ok` are false. -/
+theorem seeded_cache_violates_scratch_ok :
+    getUnused ((seededScratch.take 3).flatMap topRegs) = .ok ⟨2, 2⟩ ∧
+    getUnused ((seededScratch.take 6).flatMap topRegs) = .ok ⟨2, 3⟩ ∧
+    (⟨2, 2⟩ : Reg) ∈ (seededScratch.take 6).flatMap topRegs ∧
+    K (Gen.cfg false false) seededScratch 6 ⟨2, 2⟩ = some 3 := by
+  decide +kernel
 
 /-- **transpile_simulates (partial: under `QStatic`)**. Every finite execution of the vanilla
 subroutine from `s0` to `(pc, s)` is matched by an execution of the serialised NV subroutine from
 the same `s0` to `(index_changes pc, u)` — pc correspondence through the index map — with
-`Rel`: equal memory (classical arrays, quantum state, …), equal non-Q registers, and equal values
-of every Q register the program can read at `pc`. -/
+`Rel`: equal memory (classical arrays, quantum state, …), equal registers except Q registers the
+pass borrows as scratch somewhere in `S` (`ScratchSet`), and equal values of every Q register the
+program can read at `pc` (inside a window), borrowed or not. The exception is necessary: the NV
+program really overwrites the borrowed register with 0, and `scratch_ok` shows it is dead there. -/
 theorem transpile_simulates_partial {μ : Type} (M : Sem μ) (cfg : Cfg)
     (hT : TemplatesNoBranch cfg = true) (hW : InfosWF cfg = true) (hpad : isDebug cfg.pad = false)
     (hL : SemLocal M cfg) (hE : ExpandSound M cfg)
@@ -194,7 +254,8 @@ theorem transpile_simulates_partial {μ : Type} (M : Sem μ) (cfg : Cfg)
   exact ⟨cs, u, hc, hidx, h1, h2⟩
 
 /-- **Terminating runs**: if the vanilla subroutine runs off its end in state `s`, the serialised
-NV subroutine runs off *its* end in a state with the same memory and the same non-Q registers —
+NV subroutine runs off *its* end in a state with the same memory and the same registers — all
+non-Q registers and every Q register that `get_unused_register` hands out nowhere in `S` —
 except, when the padding `set C15 1337` was appended (a branch targeted the end), the padding
 register (the documented mechanism). -/
 theorem transpile_simulates_final_partial {μ : Type} (M : Sem μ) (cfg : Cfg)
@@ -205,7 +266,8 @@ theorem transpile_simulates_final_partial {μ : Type} (M : Sem μ) (cfg : Cfg)
     (s0 s : St μ) (hrun : Steps M cfg S (0, s0) (S.length, s)) :
     ∃ cs u, Chunks cfg [] [] S cs ∧ Steps M cfg (serialise out) (0, s0) ((serialise out).length, u) ∧
       s.mem = u.mem ∧
-      ∀ r, r.bank ≠ bankQ → (endTargeted cfg S cs = false ∨ r ≠ rp) → s.regs r = u.regs r := by
+      ∀ r, (r.bank ≠ bankQ ∨ ¬ ScratchSet S r) → (endTargeted cfg S cs = false ∨ r ≠ rp) →
+        s.regs r = u.regs r := by
   obtain ⟨cs, hc, hidx, hout, hok⟩ := transpile_structure h
   have C : Ctx M cfg S out cs := ⟨hT, hW, hpad, hL, hE, hQ, hc, hout, hok⟩
   obtain ⟨u, h1, h2⟩ := sim_steps C hrun s0 (Rel.init cfg S s0)
@@ -213,7 +275,48 @@ theorem transpile_simulates_final_partial {μ : Type} (M : Sem μ) (cfg : Cfg)
   obtain ⟨u', h3, hm, hr⟩ := final_pad C hpl hps u
   refine ⟨cs, u', hc, h1.trans h3, by rw [hm]; exact h2.mem, ?_⟩
   intro r hb hc'
-  rw [hr r hc']; exact h2.nonQ r hb
+  rw [hr r hc']; exact h2.outside r hb
+
+/-! ### The C07 hypothesis discharged
+
+`MQ A Mc` is the concrete semantics: classical instructions as `Mc` (any semantics with `SemLocal`),
+every vanilla/NV gate instruction applies the operator its mnemonic denotes to the qubits its
+registers name (`QAction`, states up to global phase). The only facts about the quantum action are
+`QLawful` (exact operator identities on a few roles lift to the whole register under an injective
+assignment of qubits; a rotation depends only on its angle). `mov` has no semantics in `MQ`
+(it faults): see `mov_runtime_ids_*` below. -/
+
+/-- **tie**: for both debug and both hardware settings, every template of Gen/NvExpand, read over
+roles, IS the sequence of Gen/NvDecomp for the same gate and placement (the sequences C07's
+operator identities are about), and the class table agrees with the classes `MQ` interprets -/
+theorem templates_eq_nvdecomp : ∀ d h : Bool,
+    AllTies (Gen.cfg d h) = true ∧ ClsTie (Gen.cfg d h) = true := all_ties_gen
+
+/-- **expandSound_of_C07**: `ExpandSound` holds for the concrete semantics and the generated
+expansion table; the facts used are C07's `single_gates_eq`, `cnot_placements_eq`,
+`cphase_placements_eq` (with `electron_returned`: the carbon–carbon targets are gate ⊗ 1 on the
+borrowed electron), the tie above, and `QLawful`. -/
+theorem expandSound_of_C07 {C Q : Type} (A : QAction Q) (hA : QLawful A) (Mc : Sem (C × Q)) (d h : Bool)
+    (hMc : SemLocal Mc (Gen.cfg d h)) : ExpandSound (MQ A Mc) (Gen.cfg d h) :=
+  Tr.expandSound_of_C07 A hA Mc _ hMc (all_ties_gen d h).1 (all_ties_gen d h).2
+
+/-- **transpile_simulates for the generated table, no gate hypothesis** (partial: `QStatic`;
+runs through a `mov` are not covered since `MQ` gives `mov` no semantics). -/
+theorem transpile_simulates_C07_partial {C Q : Type} (A : QAction Q) (hA : QLawful A)
+    (Mc : Sem (C × Q)) (d h : Bool) (hMc : SemLocal Mc (Gen.cfg d h))
+    (S out : List Instr) (hQ : QStatic (Gen.cfg d h) S = true) (ht : transpile (Gen.cfg d h) S = .ok out)
+    (s0 s : St (C × Q)) (pc : Nat) (hrun : Steps (MQ A Mc) (Gen.cfg d h) S (0, s0) (pc, s)) :
+    ∃ cs u, Chunks (Gen.cfg d h) [] [] S cs ∧ indexChanges (Gen.cfg d h) S = some (starts 0 cs) ∧
+      Steps (MQ A Mc) (Gen.cfg d h) (serialise out) (0, s0) (tposS cs pc, u) ∧
+      Rel (Gen.cfg d h) S pc s u :=
+  transpile_simulates_partial (MQ A Mc) (Gen.cfg d h) (expansions_have_no_branch d h).1
+    (expansions_have_no_branch d h).2.1 (expansions_have_no_branch d h).2.2
+    (semLocal_MQ A Mc _ hMc (all_ties_gen d h).2) (expandSound_of_C07 A hA Mc d h hMc) S out hQ ht s0 s pc hrun
+
+/-- `QLawful` is satisfiable (trivially, on a one-point state space; the intended instance is the
+unitary action on state vectors modulo phase) -/
+example : ∃ A : QAction Unit, QLawful A :=
+  ⟨⟨fun _ q => q⟩, ⟨fun _ _ _ _ _ _ _ _ _ => rfl, fun _ _ _ _ _ _ _ _ _ => rfl⟩⟩
 
 /-- the generated configuration satisfies the side conditions on the padding instruction -/
 theorem pad_is_set : ∀ d h : Bool, lineOf (Gen.cfg d h) (Gen.cfg d h).pad = none ∧
@@ -270,7 +373,7 @@ example (d h : Bool) : ∃ M : Sem Unit, SemLocal M (Gen.cfg d h) ∧ ExpandSoun
       | some (r, v) => some ⟨fun r' => if r' = r then some v else s.regs r', s.mem⟩
       | none => none, fun _ _ => none⟩, ?_, ?_⟩
   rotate_left
-  · intro g info rv used ex s u s' hi hg _ _ _ _ _ he
+  · intro g info rv used ex s u s' hi hg _ _ _ _ _ _ he
     have := (setOf_none_of_gate (expansions_have_no_branch d h).2.1
       (by rw [isGate_eq hi]; exact hg)).1
     simp [this] at he
@@ -306,8 +409,6 @@ example (d h : Bool) : ∃ M : Sem Unit, SemLocal M (Gen.cfg d h) ∧ ExpandSoun
 
 /-! ## Witnesses of the findings, in the model -/
 
-def qreg (i : Int) : Operand := .reg ⟨2, i⟩
-def rreg (i : Int) : Operand := .reg ⟨0, i⟩
 
 /-- F10, first witness: `load Q0 @0[R0]; set Q1 2; cnot Q0 Q1` -/
 def f10a : List Instr := [
@@ -331,6 +432,43 @@ theorem f10_counterexample_stale :
         (fun ex => f10b.take 3 ++ ex) = (transpile (Gen.cfg false false) f10b).toOption)
     ∧ QStatic (Gen.cfg false false) f10b = false := by
   refine ⟨⟨_, rfl, ?_⟩, ?_⟩ <;> decide +kernel
+
+/-! ### `mov` with run-time register ids (the SDK's multi-pair EPR keep: `set R4 0; mov R4 R3`)
+
+The pass knows nothing about non-Q registers. For `mov` it then emits the electron→carbon circuit on
+the operand registers, whatever they hold; for any other two-qubit gate it asserts (same code path as
+F10: `except KeyError: assert isinstance(instr, vanilla.MovInstruction)`). At operator level the
+emitted circuit is a transfer `reg0 → reg1` onto a |0⟩ target for ANY two distinct qubits (C07
+`mov_transfer`; confirmed by the state-vector oracle in both directions and by 480 NV-transpiled
+keep scenarios of the C10 harness), so the observation "NV-transpiled mov with run-time ids
+damages states" was F9 (nv `crot_y` published the X-axis matrix) and disappeared with its fix.
+`transpile_simulates_*` does not cover `mov` (published vanilla semantics is a SWAP, the NV
+circuits are a transfer: the states differ on the source qubit until it is freed). -/
+
+/-- for `mov`, whenever the pass lacks the value of one operand register it emits the
+electron→carbon template on `(reg0, reg1)` — independent of what the registers hold -/
+theorem mov_unknown_emits_ec (cfg : Cfg) (info : ClsInfo) (htag : info.tag = "mov")
+    (rv : List (Reg × Int)) (used : List Reg) (c : String) (ra rb : Reg)
+    (hun : rv.lookup ra = none ∨ rv.lookup rb = none) :
+    expandGate2 cfg info rv used ⟨c, [.reg ra, .reg rb]⟩
+      = useTemplate cfg ("mov_ec" ++ sfx cfg) ⟨c, [.reg ra, .reg rb]⟩ ra rb ra := by
+  unfold expandGate2
+  simp only
+  rcases hun with h | h
+  · rw [h]; simp [htag]
+  · rw [h]
+    cases rv.lookup ra <;> simp [htag]
+
+/-- F10, non-Q operand registers: `set R0 0; set R1 1; cnot R0 R1` runs on the controller, the pass
+raises AssertionError (outside `QStatic`: two-qubit gates must name Q registers) -/
+def f10c : List Instr := [
+  ⟨"core.SetInstruction", [rreg 0, .imm 0]⟩,
+  ⟨"core.SetInstruction", [rreg 1, .imm 1]⟩,
+  ⟨"vanilla.CnotInstruction", [rreg 0, rreg 1]⟩]
+
+theorem f10_nonQ_register_asserts :
+    transpile (Gen.cfg false false) f10c = .error .assertion ∧ QStatic (Gen.cfg false false) f10c = false := by
+  decide +kernel
 
 /-- F26 (fixed in /repo): `beq R0 R1 3; cnot Q0 Q1 (carbons 1, 2); set R5 7` with debug markers -/
 def f26 : List Instr := [
